@@ -303,11 +303,19 @@ def check(ctx):
            sample={"rule": "R4", "raw_values": 256, "labels": 3})
     # watercare renderings for every byte
     wc = repo.cls("GeckoWaterCare")
+    from ..facademodel import Rec as _Rec, model_facade as _mf
     n_eval = 0
     for member in ("__str__", "monitor", "mode", "modes"):
         m = repo.method("GeckoWaterCare", member)
         for v in [None] + list(range(256)):
-            obj = Obj(wc, {"active_mode": v, "_name": "WaterCare"})
+            try:
+                # built by its own constructor on a model facade; the mode arrives the way the facade delivers it
+                interp.steps = 0
+                obj = interp.apply(ClassRef(wc), [_mf(_Rec(), {})[0]], {})
+                if v is not None:
+                    interp.call(repo.method("GeckoWaterCare", "change_watercare_mode"), obj, [v])
+            except (PyRaise, Undecided) as e:
+                raise AnalysisError(f"GeckoWaterCare(facade).change_watercare_mode({v}) on the model facade: {e}")
             try:
                 interp.steps = 0
                 interp.call(m, obj, [])
